@@ -148,7 +148,8 @@ class Gen:
         if ty == '#':
             return ['lit', '#', r.randint(-32, 80) / 8.0]
         if ty == '$':
-            return ['lit', '$', r.choice(('', 'a', 'B', 'xy', 'Hello', ' pad ', 'q7', 'zz top'))]
+            return ['lit', '$', r.choice(('', 'a', 'B', 'xy', 'Hello', ' pad ', 'q7', 'zz top',
+                                          'Hello', 'a', 't\tb'))]
         raise ValueError(ty)
 
     def pos_lit(self, lo=0, hi=5):
@@ -540,7 +541,7 @@ class Gen:
             lvs.append(lv)
             self.data_types.append(ty)
             if ty == '$':
-                self.data_items.append(r.choice(('abc', '"x, y"', 'two words', '', '"q"')))
+                self.data_items.append(r.choice(('abc', '"x, y"', 'two words', '', '"q"', 'tab\there')))
             elif ty in '%&':
                 self.data_items.append(str(r.randint(-20, 99)))
             else:
